@@ -467,6 +467,8 @@ def circ_random(rng, nops, style):
             ops.append("i:%d" % (rng.below(70) - 2))
         elif x < 10:
             ops.append(rng.choice(["l", "k", "S", "f", "D"]))
+        if i % 11 == 10:
+            ops.append("D")
     ops += ["D", "l", "k", "S", "f"] + ["i:%d" % i for i in range(-1, 40)]
     return "algo.circ " + ",".join(ops)
 
@@ -509,9 +511,10 @@ def run(c):
             replay_lines.append(t["line"])
 
     strict_fail = []
+    henv = dict(os.environ, GOMAXPROCS="2")  # 16 harness processes run side by side; each is single-threaded work
 
     def do(name, lines):
-        res = c.tie(name, lines, impl, model, nontrivial=lambda l, a: a.startswith("ok "))
+        res = c.tie(name, lines, impl, model, nontrivial=lambda l, a: a.startswith("ok "), env=henv)
         for l, a, _ in res:
             stats(c, l, a)
             if not wellformed(l):
@@ -572,10 +575,11 @@ def run(c):
 
     # ---- circular: exhaustive + random
     cl = 6 if c.thorough else 5
-    for prefix, ln in (([], cl - 1), (["r:3"], cl), (["r:2", "w", "r:1"], cl - 1)):
+    NEAR_WRAP = ["r:3", "p:91", "p:92", "q"]  # read_pos=1, write_pos=2, cap=3: two more pushes wrap around
+    for prefix, ln in (([], cl - 1), (["r:3"], cl), (["r:2", "w", "r:1"], cl - 1), (NEAR_WRAP, cl - 1)):
         for b in batches(circ_exhaustive(prefix, ln), 100000):
             do("circ-exh", b)
-    for b in batches(circ_exhaustive(["r:3"], cl - 1, alphabet=("p", "q", "x:0", "x:1", "x:2", "w", "a")), 100000):
+    for b in batches(circ_exhaustive(NEAR_WRAP, cl - 1, alphabet=("p", "q", "x:0", "x:1", "x:2", "w", "a")), 100000):
         do("circ-exh-store", b)
     lines = []
     for i in range(4000 if c.thorough else 600):
@@ -603,7 +607,8 @@ def run(c):
         "tree: every Set/Delete sequence of the planned exact lengths over small key sets (%s; the tree is dumped after "
         "every operation so shorter histories are covered as prefixes), all insertion orders of %d keys + 2 deletions, "
         "ascending/descending runs up to 39, %d random histories (styles mix/asc/desc/phases, up to %d ops); "
-        "circular: every sequence of %d (after `reserve 3`) / one fewer (from empty, and after a swapped-in capacity 2) "
+        "circular: every sequence of %d (after `reserve 3`) / one fewer (from empty, after a swapped-in capacity 2, from a state about to wrap; "
+        "also with stores through IndexRef at positions 0..2 in the alphabet) "
         "mutators from {push,pop,reserve 3,reserve 5,clear,swap,deep-assign} with all observers after each step, %d random histories; distinct = distinct line text; every line "
         "contains at least one state-changing operation except the fixed malformed/empty probes" % (
             ", ".join("%d keys x len %d" % (len(k), L) for k, L in plans), perm_n, nrand,
